@@ -1177,6 +1177,11 @@ def coq_judge(cases, outs, results):
             verdicts[i] = "skip:model not run on long random-double histories (rational blow-up); spec predicate only"
             continue
         t = _term(c, o)
+        if t is not None and len(t) > 200000:
+            # a single history whose Coq term exceeds 200 kB (thorough-tier sizes: long lists / big grids with full-mantissa
+            # rationals) does not evaluate within the per-file limit; it is judged by the spec predicate only
+            verdicts[i] = "skip:model term of %d kB exceeds the evaluation budget; spec predicate only" % (len(t) // 1000)
+            continue
         if t is not None:
             idx.append(i)
             terms.append(t)
